@@ -675,11 +675,20 @@ Qed.
 Lemma who_eqb_refl w : who_eqb w w = true.
 Proof. destruct w; reflexivity. Qed.
 
+Lemma cfg_small_b c : cfg_small c -> cfg_smallb c = true.
+Proof.
+  intros ((H1 & H2) & H3 & H4). unfold cfg_smallb.
+  destruct (Z.leb_spec 0 (c_prio c)); [|lia]. destruct (Z.ltb_spec (c_prio c) 2147483648); [|lia].
+  destruct (Z.leb_spec 0 (c_dec c)); [|lia].
+  destruct (Z.ltb_spec (c_dec c * Z.of_nat (c_nifs c)) 2147483648); [reflexivity | lia].
+Qed.
+
 Lemma adjust_small c n cnt :
   cfg_small c -> c_dec c <> 0 -> (1 <= c_nifs c)%nat -> 0 <= cnt <= Z.of_nat (c_nifs c) -> n_cnt n = cnt ->
   n_eff (adjust_priority c n (if_delta c n)) = Z.max 0 (c_prio c - c_dec c * cnt).
 Proof.
-  intros (Hp & Hd & Hm) Hnz Hnif Hc Hn. unfold adjust_priority, if_delta. cbn [n_eff set_eff]. rewrite Hn.
+  intros Hsm Hnz Hnif Hc Hn. unfold adjust_priority, if_delta. cbn [n_eff set_eff].
+  rewrite (cfg_small_b c Hsm). destruct Hsm as (Hp & Hd & Hm). rewrite Hn.
   assert (Hn1 : 1 <= Z.of_nat (c_nifs c)) by lia.
   assert (Hdn : c_dec c * 1 <= c_dec c * Z.of_nat (c_nifs c)) by (apply Z.mul_le_mono_nonneg_l; lia).
   assert (Hdc : c_dec c * cnt <= c_dec c * Z.of_nat (c_nifs c)) by (apply Z.mul_le_mono_nonneg_l; lia).
@@ -964,4 +973,13 @@ Proof.
       * apply Nat.leb_gt in S2. exact S2.
       * apply Nat.ltb_ge in S1. exact S1.
     + cbn [fst]. intros [H|H]; inversion H; subst. split; [now right|]. intros tag' E'. rewrite E in E'. discriminate E'.
+Qed.
+
+(* the wrapped int32 computation of /repo d2827a3 is one admissible overflow policy *)
+Lemma head_overflow_policy c n :
+  c_over c = over_int32 (c_prio c) (c_dec c) ->
+  n_eff (adjust_priority c n (if_delta c n)) = over_int32 (c_prio c) (c_dec c) (n_cnt n).
+Proof.
+  intros H. unfold adjust_priority, if_delta, over_int32. cbn [n_eff set_eff].
+  destruct (cfg_smallb c); [reflexivity|]. rewrite H. reflexivity.
 Qed.
